@@ -291,6 +291,10 @@ class FreeCapacity:
         Provide access to same fields as capacities, computed as a difference between total and allocated
         i.e. available or free
         """
+        if item in ('free', 'total') or (item.startswith('__') and item.endswith('__')):
+            # asked before 'free' exists (copy / pickle build the object without __init__ and probe it
+            # for special methods first): there is nothing to delegate to yet
+            raise AttributeError(item)
         return self.free.__getattribute__(item)
 
 
